@@ -94,6 +94,10 @@ func (x *Exec) enterLoop(st *State, fr *Frame, from, to *ssa.BasicBlock, li *loo
 	evalInv := func(cl *Clause) string {
 		sv, err := evalSpecFns(cl.node, x.frameEnv(st, fr), x.sigs, bound, fr.xsigs, fr.xsyms)
 		if err != nil {
+			if strings.Contains(err.Error(), "unknown identifier") && fr.isTop {
+				x.addInapplicable(fmt.Sprintf("loop%d.init", k), cl.Tag, cl.Text, err.Error(), cl.Props)
+				return "true"
+			}
 			x.fail("loop %d invariant %s of %s: %v", k, cl.Tag, fr.fn.Name(), err)
 			return "true"
 		}
